@@ -164,7 +164,11 @@ fn cmd_check(id: &str, tier: &str) -> i32 {
         }
         let b = batches.iter().find(|b| &b.name == bname).unwrap();
         let cfg = check::make_cfg(seed, b, *idx);
-        let f = check::minimise(b, &cfg, &v.rule, &v.site, Duration::from_secs(45)).unwrap_or(check::Failing {
+        // a run that hangs is not re-run for shrinking (and once one was seen, nothing is: the
+        // abandoned thread is still spinning in this process)
+        let hang = check::HANG_SEEN.load(std::sync::atomic::Ordering::SeqCst);
+        let shrunk = if hang { None } else { check::minimise(b, &cfg, &v.rule, &v.site, Duration::from_secs(45)) };
+        let f = shrunk.unwrap_or(check::Failing {
             cfg: cfg.clone(),
             violation: v.clone(),
             decisions: vec![],
@@ -261,8 +265,18 @@ fn cmd_replay(path: &str) -> i32 {
     for (k, v) in doc["overrides"].as_object().unwrap() {
         cfg.overrides.insert(k.clone(), v.as_u64().unwrap());
     }
-    let (out, mon) = check::exec_in_thread(b.exec, &profile, &cfg).expect("run");
     let rule = doc["rule"].as_str().unwrap();
+    let (out, mon) = match check::exec_in_thread(b.exec, &profile, &cfg) {
+        Ok(x) => x,
+        Err(e) if e.starts_with("TIMEOUT-SUT") && doc["site"].as_str() == Some("hang") => {
+            println!("REPRODUCED rule={rule} site=hang detail={e}");
+            std::process::exit(1);
+        }
+        Err(e) => {
+            eprintln!("HARNESS-ERROR replay: {e}");
+            return 2;
+        }
+    };
     let hash = hist::history_hash(&out.hist);
     let same_hash = Some(hash.as_str()) == doc["history_sha256"].as_str();
     match mon.violations.iter().find(|v| v.rule == rule) {
